@@ -53,7 +53,38 @@ func xmlRepresentable(b []byte) bool {
 	return true
 }
 
+// xmlNeutralColons rewrites every ':' that stands in a tag or attribute NAME (inside '<...>',
+// outside quoted values) to "_x3A_". ':' is an ordinary name character of XML 1.0, and the
+// statement asks for well-formed XML; Go's decoder additionally enforces the Namespaces
+// constraint (at most one colon per name), which the statement does not.
+func xmlNeutralColons(out []byte) []byte {
+	var b bytes.Buffer
+	inTag, q := false, byte(0)
+	for _, c := range out {
+		switch {
+		case !inTag:
+			if c == '<' {
+				inTag = true
+			}
+		case q != 0:
+			if c == q {
+				q = 0
+			}
+		case c == '"' || c == '\'':
+			q = c
+		case c == '>':
+			inTag = false
+		case c == ':':
+			b.WriteString("_x3A_")
+			continue
+		}
+		b.WriteByte(c)
+	}
+	return b.Bytes()
+}
+
 func xmlWellFormed(out []byte) bool {
+	out = xmlNeutralColons(out)
 	d := xml.NewDecoder(bytes.NewReader(append(append([]byte("<root>"), out...), "</root>"...)))
 	d.Strict = true
 	d.Entity = xml.HTMLEntity
